@@ -43,6 +43,7 @@ def read_numbers_inv(c, file, d, start, cuts, res, i):
         ("lengths", And(L(res) == i, L(cuts) == i + 1, nth(cuts, 0) == start)),
         ("position", And(pos <= L(d), pos >= start + i, Or(pos == L(d), pos == nth(cuts, i)))),
         ("numbers-so-far", ForAll(lambda k: And(nth(cuts, k + 1) == nth(cuts, k) + SP.NL(d, nth(cuts, k)), nth(res, k) == SP.NV(d, nth(cuts, k)), nth(cuts, k + 1) <= L(d), nth(cuts, k) >= start, nth(res, k) >= 0, nth(res, k) < U64), guard=lambda k: And(complete, k >= 0, k < i), over=cuts, trigger=False)),
+        ("values-in-range", ForAll(lambda k: And(nth(res, k) >= 0, nth(res, k) < U64), guard=lambda k: And(k >= 0, k < i), over=res)),
         ("frame-data", eq(c.data(file), d)),
     ]
 
@@ -205,11 +206,12 @@ class SubstreamsInfoRead(Contract):
     Without a Size record the sizes are the unpack sizes of the one-stream folders."""
 
     target = AI + "SubstreamsInfo._read"
-    props = ("C06", "C08", "C05")
+    props = ("C06",)
     opaque_numbers = True
     fork_spec_booleans = True
     replayable = False  # the folder objects are modelled records (unpack size / digest flag / crc): no concrete harness
     assumptions = (
+        "the prefix sums used in the specification are folds defined by their one-step unfolding (psum(k+1) = psum(k) + xs[k]); self.unpacksizes only grows by append inside _read, so sums over an earlier state are sums over every later state",
         "Folder.get_unpack_size() is a pure function of the folder (modelled as a column of the folder records); folder.digestdefined implies folder.crc is not None (established by UnpackInfo._retrieve_coders_info since FX11)",
     )
 
@@ -255,6 +257,13 @@ class SubstreamsInfoRead(Contract):
         def G(c, name):
             return c.eng.ghost[name]
 
+        def nus_frame(c):
+            """the stream counts are not modified by the loops that consult them"""
+            g = c.eng.ghost
+            if "nus0" not in g:
+                g["nus0"] = nus_of(c, c.bound["self_"])
+            return ("frame-stream-counts", eq(nus_of(c, c.bound["self_"]), g["nus0"]))
+
         def nus_def(c):
             """definition of the prefix sums of the stream counts (a fold over the final list), registered once"""
             nus = nus_of(c, c.bound["self_"])
@@ -279,12 +288,26 @@ class SubstreamsInfoRead(Contract):
             c.eng.ghost["cutsRN"] = snoc(G(c, "cutsRN"), c.pos(c.bound["file"]))
 
         # ---- loop0 / loop1: the Size record
+        def ups_def(c, ups):
+            """definition of the prefix sums of the size list (a fold); the list only grows by append in this function,
+            so the sums of a shorter state are the sums of every later state"""
+            if not V.is_sym(ups):
+                ups = V.to_seq(ups, "int", "list")
+            key = ("ups_def", ups.t.get_id())
+            seen = c.eng.ghost.setdefault("defs", set())
+            if key not in seen:
+                seen.add(key)
+                c.eng._keep.append(ups)
+                c.eng.register_forall(ForAll(lambda k: psum(c, "rups", ups, k + 1) == psum(c, "rups", ups, k) + nth(ups, k), guard=lambda k: And(k >= 0, k < L(ups)), over=ups))
+
         def sizes_common(c, m):
             b = c.bound
             file, folders = b["file"], b["folders"]
             d = d0(c)
             nus = nus_of(c, b["self_"])
             ups = c.f(b["self_"], "unpacksizes")
+            ups_def(c, ups)
+            c.inst(m - 1)  # proof hint: unfold the size prefix sum at the newest element
             cuts, fo = G(c, "cutsRZ"), G(c, "foRZ")
             pos = c.pos(file)
             complete = pos < L(d)
@@ -292,7 +315,6 @@ class SubstreamsInfoRead(Contract):
                 ("lengths", And(L(ups) == m, L(cuts) == m + 1, L(fo) == m, m >= 0, nth(cuts, 0) == G(c, "startRZ"))),
                 ("position", And(pos <= L(d), Or(pos == L(d), pos == nth(cuts, m)))),
                 ("nonneg-counts", ForAll(lambda k: nth(nus, k) >= 0, guard=lambda k: And(k >= 0, k < L(nus)), over=nus)),
-                ("size-prefix-sums", ForAll(lambda k: psum(c, "rups", ups, k + 1) == psum(c, "rups", ups, k) + nth(ups, k), guard=lambda k: And(k >= 0, k < m), over=ups, trigger=False)),
                 ("substreams-so-far", ForAll(lambda q: sizesQ(c, d, cuts, fo, nus, ups, folders, L(nus), q), guard=lambda q: And(complete, q >= 0, q < m), over=cuts, trigger=False, cases=lambda q: [q < m - 1, q >= m - 1])),
                 ("frame-data", eq(c.data(file), d)),
             ]
@@ -300,7 +322,7 @@ class SubstreamsInfoRead(Contract):
         def inv_l0(c, Lp):
             nus = nus_of(c, c.bound["self_"])
             m = psum(c, "rnus", nus, Lp.i)
-            return [("cursor", L(c.f(c.bound["self_"], "unpacksizes")) == m)] + sizes_common(c, m)
+            return [nus_frame(c), ("cursor", L(c.f(c.bound["self_"], "unpacksizes")) == m)] + sizes_common(c, m)
 
         def init_l0(c, Lp):
             st = c.pos(c.bound["file"])
@@ -321,7 +343,7 @@ class SubstreamsInfoRead(Contract):
             ups = c.f(c.bound["self_"], "unpacksizes")
             i = c.local("i")
             m = psum(c, "rnus", nus, i) + Lp.i
-            return [("cursor", And(L(ups) == m, i >= 0, i < L(nus), Lp.i >= 0, Lp.i <= V.max_(nth(nus, i) - 1, 0), Lp.local("totalsize") == psum(c, "rups", ups, m) - psum(c, "rups", ups, psum(c, "rnus", nus, i))))] + sizes_common(c, m)
+            return [nus_frame(c), ("cursor", And(L(ups) == m, i >= 0, i < L(nus), Lp.i >= 0, Lp.i <= V.max_(nth(nus, i) - 1, 0), Lp.local("totalsize") == psum(c, "rups", ups, m) - psum(c, "rups", ups, psum(c, "rnus", nus, i))))] + sizes_common(c, m)
 
         def gstep_l1(c, Lp):
             c.eng.ghost["cutsRZ"] = snoc(G(c, "cutsRZ"), c.pos(c.bound["file"]))
@@ -340,6 +362,7 @@ class SubstreamsInfoRead(Contract):
             res = Lp.local("__comp1")
             i = Lp.i
             return [
+                nus_frame(c),
                 ("length", And(L(res) == r1(c, i), r1(c, i) >= 0, r1(c, i) <= i)),
                 ("one-stream-folders-in-order", ForAll(lambda k: And(nth(res, r1(c, k)) == fsize(c, b["folders"], k), r1(c, k) >= 0, r1(c, k) < r1(c, i)), guard=lambda k: And(k >= 0, k < i, nth(nus, k) == 1), over=nus)),
             ]
@@ -370,7 +393,7 @@ class SubstreamsInfoRead(Contract):
 
         def inv_l2(c, Lp):
             nus = nus_of(c, c.bound["self_"])
-            return [("counts", And(Lp.local("num_digests") == ND(c, Lp.i), Lp.local("num_digests_total") == psum(c, "rnus", nus, Lp.i), ND(c, Lp.i) >= 0))]
+            return [nus_frame(c), ("counts", And(Lp.local("num_digests") == ND(c, Lp.i), Lp.local("num_digests_total") == psum(c, "rnus", nus, Lp.i), ND(c, Lp.i) >= 0))]
 
         def init_l2(c, Lp):
             return nus_def(c) + [ND(c, 0) == 0]
@@ -410,7 +433,7 @@ class SubstreamsInfoRead(Contract):
             defined = G(c, "definedRD")
             m = psum(c, "rnus", nus, Lp.i)
             didx = Lp.local("didx")
-            return [("cursor", And(didx == ND(c, Lp.i), Lp.local("cidx") == rank(c, "rdef", defined, didx), didx >= 0))] + digests_common(c, m)
+            return [nus_frame(c), ("cursor", And(didx == ND(c, Lp.i), Lp.local("cidx") == rank(c, "rdef", defined, didx), didx >= 0, Lp.local("cidx") >= 0))] + digests_common(c, m)
 
         def init_l3(c, Lp):
             c.eng.ghost["definedRD"] = Lp.local("defined")
@@ -438,7 +461,7 @@ class SubstreamsInfoRead(Contract):
             i = c.local("i")
             m = psum(c, "rnus", nus, i) + Lp.i
             didx = Lp.local("didx")
-            return [("cursor", And(didx == ND(c, i) + Lp.i, Lp.local("cidx") == rank(c, "rdef", defined, didx), i >= 0, i < L(nus), Lp.local("numsubstreams") == nth(nus, i), bearing(c, i), ND(c, i) >= 0))] + digests_common(c, m)
+            return [nus_frame(c), ("cursor", And(didx == ND(c, i) + Lp.i, Lp.local("cidx") == rank(c, "rdef", defined, didx), Lp.local("cidx") >= 0, i >= 0, i < L(nus), Lp.local("numsubstreams") == nth(nus, i), bearing(c, i), ND(c, i) >= 0))] + digests_common(c, m)
 
         def step_l4(c, Lp):
             return [rank_unfold(c, "rdef", G(c, "definedRD"), Lp.local("didx"))]
@@ -453,7 +476,7 @@ class SubstreamsInfoRead(Contract):
             nus = nus_of(c, b["self_"])
             dd, dg = c.f(b["self_"], "digestsdefined"), c.f(b["self_"], "digests")
             m = psum(c, "rnus", nus, Lp.i)
-            return [("lengths", And(L(dd) == m, L(dg) == m))]
+            return [nus_frame(c), ("lengths", And(L(dd) == m, L(dg) == m))]
 
         def init_l5(c, Lp):
             return nus_def(c)
